@@ -197,6 +197,13 @@ fn spawn_session(exe: &Path, o: &DriveOpts, idx: u64) -> std::io::Result<Child> 
                 .env("DEXSIM_CLOCK_REPORT", o.out.join("sessions").join(format!("{idx}.clock.json")));
             c.arg("--timeout").arg("315360000");
         }
+        // the same sessions also run with stdout and stderr that accept no byte (/dev/full): an
+        // expander that prints (a debugging `eprintln!`) must not turn that into a panic
+        if let Ok(full) = std::fs::OpenOptions::new().write(true).open("/dev/full") {
+            if let Ok(full2) = full.try_clone() {
+                c.stdout(full).stderr(full2);
+            }
+        }
     }
     c.spawn()
 }
